@@ -12,18 +12,24 @@ const (
 )
 
 var rgenNotClaimed = map[string]string{
-	"(*font/cff.cffParser).parseCharset":                           rgCursor,
-	"(*font/cff.cffParser).parseFDSelect":                          rgCursor + " (seek tests the offset)",
-	"(*font/cff.cffParser).parseIndex":                             rgCursor,
-	"(*font/cff.cffParser).parseIndexHeader":                       rgCursor,
-	"(*font/cff.cffParser).read":                                   rgCursor,
-	"(*font/cff/interpreter.Machine).Run":                          rgCursor,
-	"(*font/cff/interpreter.Machine).SkipBytes":                    "reviewed: the count is (hstem+vstem+7)>>3 of int32 counters that only grow; a negative count needs 2^31 stem operators",
-	"(*font/cff/interpreter.Machine).parseNumber":                  rgCursor + " (Run calls it with a non-empty instruction slice)",
-	"(*font/opentype.Loader).findTableBuffer":                      "known finding R-ALLOC (the table length is not compared with the file size); the slice expression reuses the caller's buffer",
-	"(*font/opentype/tables.AATStateTable).parseEntries":           rgSibling + " (parseStates tests entryTable)",
-	"(*font/opentype/tables.AATStateTable).parseStates":            rgNonLinear,
-	"(*font/opentype/tables.AATStateTableExt).parseEntries":        rgSibling + " (parseStates tests entryTable)",
+	"(*font/cff.cffParser).parseCharset":                    rgCursor,
+	"(*font/cff.cffParser).parseFDSelect":                   rgCursor + " (seek tests the offset)",
+	"(*font/cff.cffParser).parseIndex":                      rgCursor,
+	"(*font/cff.cffParser).parseIndexHeader":                rgCursor,
+	"(*font/cff.cffParser).read":                            rgCursor,
+	"(*font/cff/interpreter.Machine).Run":                   rgCursor,
+	"(*font/cff/interpreter.Machine).SkipBytes":             "reviewed: the count is (hstem+vstem+7)>>3 of int32 counters that only grow; a negative count needs 2^31 stem operators",
+	"(*font/cff/interpreter.Machine).parseNumber":           rgCursor + " (Run calls it with a non-empty instruction slice)",
+	"(*font/opentype.Loader).findTableBuffer":               "known finding R-ALLOC (the table length is not compared with the file size); the slice expression reuses the caller's buffer",
+	"(*font/opentype/tables.AATStateTable).parseEntries":    rgSibling + " (parseStates tests entryTable)",
+	"(*font/opentype/tables.AATStateTable).parseStates":     rgNonLinear,
+	"(*font/opentype/tables.AATStateTableExt).parseEntries": rgSibling + " (parseStates tests entryTable)",
+	"(*font/opentype/tables.AATStateTableExt).parseStates":  rgNonLinear + " (rows of nClasses entries cut from len(states)/nClasses rows)",
+	"(*font/opentype/tables.Gvar).parseGlyphVariationDatas": rgSibling + " (the offsets come from ParseLoca(glyphCount): glyphCount+1 entries)",
+	"(*font/opentype/tables.Strike).parseGlyphDatas":        rgSibling + " (the offsets come from ParseLoca(numGlyphs): numGlyphs+1 entries)",
+	"font.newBitmap":                                               rgSibling + " (CBLC.parseIndexSubTables makes IndexSubTables with len(BitmapSizes) entries)",
+	"font.unpackDeltas":                                            "reviewed: out[nbRead] follows the test nbRead+count <= pointNumbersCount made before each run of count values",
+	"font/opentype/tables.parseDeviceTable":                        rgNonLinear + " (count*nbPerUint16 values, filled by chunks of nbPerUint16)",
 	"(*font/opentype/tables.DeltaSetMapping).parseMap":             rgNonLinear,
 	"(*font/opentype/tables.FvarRecords).parseInstances":           rgNonLinear,
 	"(*font/opentype/tables.ItemVariationData).parseDeltaSets":     rgNonLinear,
@@ -47,4 +53,49 @@ var rgenNotClaimed = map[string]string{
 	"font/opentype/tables.parseKernx1Values":                       rgNonLinear,
 	"font/opentype/tables.parseValueRecord":                        "reviewed: the offset parameter is a sum of constants and of its own previous result at all five call sites; the sign prover does not follow pairValueRecords.get's index",
 	"font/opentype/tables.readContourPoint":                        rgSibling + " (parsePoints sizes dataX/dataY from the same flags)",
+}
+
+// rgenNotClaimedAccess: for each not-claimed function, the accesses (named by the indexed value, "" = a value without a
+// stable name) that were underivable when the function was reviewed. Generated by `vsa rgenkeys`. Any other underivable
+// access of such a function is reported.
+var rgenNotClaimedAccess = map[string][]string{
+	"(*font/cff.cffParser).parseCharset":                       {""},
+	"(*font/cff.cffParser).parseFDSelect":                      {"p.src"},
+	"(*font/cff.cffParser).parseIndex":                         {"p.src"},
+	"(*font/cff.cffParser).parseIndexHeader":                   {""},
+	"(*font/cff.cffParser).read":                               {"p.src"},
+	"(*font/cff/interpreter.Machine).Run":                      {"p.instructions"},
+	"(*font/cff/interpreter.Machine).SkipBytes":                {"p.instructions"},
+	"(*font/cff/interpreter.Machine).parseNumber":              {"p.instructions"},
+	"(*font/opentype.Loader).findTableBuffer":                  {"dst|make([]byte)"},
+	"(*font/opentype/tables.AATStateTable).parseEntries":       {"src"},
+	"(*font/opentype/tables.AATStateTable).parseStates":        {"src"},
+	"(*font/opentype/tables.AATStateTableExt).parseEntries":    {"src"},
+	"(*font/opentype/tables.AATStateTableExt).parseStates":     {""},
+	"(*font/opentype/tables.DeltaSetMapping).parseMap":         {"src"},
+	"(*font/opentype/tables.FvarRecords).parseInstances":       {"src"},
+	"(*font/opentype/tables.Gvar).parseGlyphVariationDatas":    {"gv.glyphVariationDataOffsets"},
+	"(*font/opentype/tables.ItemVariationData).parseDeltaSets": {""},
+	"(*font/opentype/tables.KernData3).parseEnd":               {"kd.RightClass"},
+	"(*font/opentype/tables.MVAR).parseValueRecords":           {"src"},
+	"(*font/opentype/tables.SimpleGlyph).parsePoints":          {"sg.Points", "src"},
+	"(*font/opentype/tables.Strike).parseGlyphDatas":           {"", "src"},
+	"(font.Kern3).KernPair":                                    {"kd.KernIndex"},
+	"(font/opentype/tables.pairValueRecords).get":              {"ps.data"},
+	"font.newBitmap":                               {"make(font.bitmap)[].subTables", "table.IndexSubTables"},
+	"font.parseGlyphVariationSerializedData":       {""},
+	"font.parsePointNumbers":                       {""},
+	"font.unpackDeltas":                            {"make([]int16)"},
+	"font/cff.ParseCFF2":                           {"src"},
+	"font/cff.parseIndexContent":                   {"src"},
+	"font/opentype.WriteTTF":                       {"", "make([]byte)"},
+	"font/opentype.parseDfont":                     {"make([]byte)"},
+	"font/opentype.parseUint32s":                   {"data"},
+	"font/opentype/tables.ParseGlyphVariationData": {"src"},
+	"font/opentype/tables.ParseLoca":               {"src"},
+	"font/opentype/tables.parseAATStateEntries":    {"src"},
+	"font/opentype/tables.parseDeviceTable":        {""},
+	"font/opentype/tables.parseKernx1Values":       {"src"},
+	"font/opentype/tables.parseValueRecord":        {"", "data"},
+	"font/opentype/tables.readContourPoint":        {"data"},
 }
